@@ -10,8 +10,8 @@ import (
 	"fmt"
 	"os"
 	"os/exec"
-	"runtime/debug"
 	"path/filepath"
+	"runtime/debug"
 	"strings"
 	"time"
 
